@@ -224,6 +224,33 @@ CHECKS.update({
         'DESIGN.md section 4 C16'),
 })
 
+CHECKS.update({
+    'C15': (
+        'Coq proof (export list = cells with polygons in increasing linear order, each with its own index and polygon; recorded native index ravels back to the cell) + vm_compute correspondence + file round trips through independent readers',
+        'Theorems C15_* prove for every polygon list and hole pattern that the exported features are exactly the cells that '
+        'have a polygon, in strictly increasing linear order, each carrying the index and polygon of its own cell, and (with '
+        'C01) that the recorded native index identifies that same cell.  Per run every dataset (holes, invalid cells, 11x12 '
+        'grids whose native indexes have different printed widths, coordinates scaled by 1/3 so they need 16-17 significant '
+        'digits) is exported in the four formats, each file is read back with an independent reader (json, pyshp, shapely) '
+        'and compared with the model list (positions, native indexes) and with the dataset polygons coordinate by coordinate '
+        '(bit patterns, up to start vertex and ring orientation); the command line tool is run on files whose missing '
+        'coordinates are stored with a fill value and its output compared byte for byte with the library\'s.',
+        'Trusted: Coq kernel; model Export.v / IndexConv.v.  PARTIAL: the serialisers (json/geojson, pyshp, GEOS WKT/WKB) are '
+        'not modelled; the file round trip is established per run only.',
+        'DESIGN.md section 4 C15'),
+    'C19': (
+        'Coq proof (selecting polygons and values with the same mask keeps them paired; plotted pair iff same cell; colour limits attained and bounding; arrows position-wise) + vm_compute correspondence',
+        'Theorems C19_* prove for every mask, polygon list and value list that compressing both with the same mask yields '
+        'the pairs (polygon of n, value of n) of exactly the cells with geometry, in order, that the default colour limits '
+        'are attained by plotted values and bound all of them, and that position n of a quiver is cell n.  Per run the '
+        'PolyCollection paths / array / clim and the Quiver X, Y, U, V and transforms are read back from the matplotlib '
+        'artists for datasets with and without holes, variables by name or array with dimensions in any order, user array / '
+        'clim / transform overrides, and a leftover dimension (must be refused); values are cell tags so a permutation '
+        'cannot hide.',
+        'Trusted: Coq kernel; model Export.v.  PARTIAL: matplotlib itself (rendering, transforms) is not modelled.',
+        'DESIGN.md section 4 C19'),
+})
+
 NOT_YET = 'check not built yet in this session (work in progress; the design in DESIGN.md section 4 applies)'
 
 
